@@ -62,6 +62,11 @@ func allScenarios(tier string) []scenario {
 		fb = 3
 	}
 	out = append(out, fineScenarios(fb)...)
+	lb := 1
+	if th {
+		lb = 2
+	}
+	out = append(out, asyncLargeScenarios(lb)...)
 	return out
 }
 
@@ -79,6 +84,8 @@ func exploreScenario(idx int, sc scenario, deadline time.Time) scenResult {
 	}
 	rtSetFine(sc.Fine)
 	defer rtSetFine(false)
+	rtSetDelay(sc.Delay)
+	defer rtSetDelay(false)
 	for _, bound := range bounds {
 		var viol *verdict
 		var vsched []int
@@ -127,7 +134,6 @@ func worker(spec string, tier string) {
 	parts := strings.Split(spec, "/")
 	i, _ := strconv.Atoi(parts[0])
 	n, _ := strconv.Atoi(parts[1])
-	runtime.GOMAXPROCS(1)
 	budget := 540
 	if tier == "thorough" {
 		budget = 2100
@@ -163,6 +169,9 @@ func racePass(tier string) {
 		for idx, sc := range scs {
 			if sc.Family == "fine" {
 				continue // same bodies as the readonly family
+			}
+			if sc.Family == "async-large" && procs != 1 {
+				continue // these scenarios set GOMAXPROCS themselves
 			}
 			if sc.Family == "readonly" && idx%7 != 0 && tier != "thorough" {
 				continue
@@ -306,11 +315,11 @@ func main() {
 		if r.Cut != "" {
 			c.Cut(r.Name + ": " + r.Cut)
 		} else if !r.Complete && r.Msg == "" {
-			c.Cut(fmt.Sprintf("%s: interleavings explored up to preemption bound %d only", r.Name, r.Bound))
+			c.Cut(fmt.Sprintf("%s: interleavings explored up to preemption/delay bound %d only", r.Name, r.Bound))
 		}
-		if r.Family == "async" {
+		if r.Family == "async" || r.Family == "async-large" {
 			asyncTable = append(asyncTable, map[string]interface{}{"scenario": r.Name, "executions": r.Executions, "preemption_bound_completed": r.Bound, "all_interleavings": r.Complete, "distinct_outcomes": r.Outcomes, "threads": r.MaxThreads})
-			if r.Outcomes <= 1 && r.MaxThreads > 2 && r.Msg == "" {
+			if r.Outcomes <= 1 && r.MaxThreads > 2 && r.Msg == "" && r.Family == "async" {
 				oneOutcome++
 			}
 			c.Nontrivial(r.Name)
